@@ -1,9 +1,348 @@
-(* Plugin family "shell": Gallina models of bandit plugins; definitions only (proofs go to Proofs/). *)
+(* Plugin family "shell": Gallina models of bandit plugins; definitions only (proofs go to Proofs/).
+   bandit/plugins/injection_shell.py (B602..B607) and bandit/plugins/injection_wildcard.py (B609). *)
 From Coq Require Import List NArith ZArith Bool String.
 From Bandit Require Import Base.PyStr Ast.Node Engine.Types Engine.Resolve Engine.Context Engine.Linerange
-     Engine.Scan Regex.Regex.
+     Engine.Scan Regex.Regex Gen.Regexes Gen.Registry.
 Import ListNotations.
 Local Open Scope string_scope.
 Local Open Scope list_scope.
 
-Definition shell_plugins : list plugin := [].
+(* ---------------------------------------------------------------------------------------------- *)
+(* The configuration value `config` (whatever the user's YAML put under `shell_injection`).        *)
+
+(* bool(config) *)
+Definition cfg_truthy (cfg : jv) : bool :=
+  match cfg with
+  | JNull => false
+  | JBool b => b
+  | JInt z => negb (Z.eqb z 0)
+  | JStr s => match s with [] => false | _ => true end
+  | JList l => match l with [] => false | _ => true end
+  | JDict kv => match kv with [] => false | _ => true end
+  end.
+
+(* config[k] with a str key: KeyError on a dict without the key, TypeError on str/list/int/bool/None *)
+Definition cfg_section (k : pstr) (cfg : jv) : res jv :=
+  match cfg with
+  | JDict _ => match jget k cfg with Some v => Ok v | None => Raise KeyError end
+  | _ => Raise TypeError
+  end.
+
+Definition is_jnull (j : jv) : bool := match j with JNull => true | _ => false end.
+
+(* `q in v` where q is a str or None: list -> element equality, dict -> key membership,
+   str -> substring (TypeError for None in str), None/int/bool -> TypeError *)
+Definition py_in (q : option pstr) (v : jv) : res bool :=
+  match v with
+  | JList l => Ok (match q with Some s => mem_pstr s (jstrs v) | None => existsb is_jnull l end)
+  | JDict kv => Ok (match q with
+                    | Some s => match assoc s kv with Some _ => true | None => false end
+                    | None => false
+                    end)
+  | JStr s => match q with Some t => Ok (contains s t) | None => Raise TypeError end
+  | _ => Raise TypeError
+  end.
+
+Definition sec_subprocess : pstr := s2p "subprocess".
+Definition sec_shell : pstr := s2p "shell".
+Definition sec_no_shell : pstr := s2p "no_shell".
+Definition kw_shell : pstr := s2p "shell".
+
+(* context.call_function_name_qual in config[k] *)
+Definition in_section (k : pstr) (cfg : jv) (c : ctx) : res bool :=
+  do v <- cfg_section k cfg;; py_in (c_qualname c) v.
+
+(* ---------------------------------------------------------------------------------------------- *)
+(* has_shell *)
+
+Definition nonempty {A} (l : list A) : bool := match l with [] => false | _ => true end.
+
+(* the if/elif ladder on one `shell=` value *)
+Definition shell_value_truth (val : node) : bool :=
+  if is_Num val then
+    match const_of val with
+    | Some (CInt z) => negb (Z.eqb z 0)
+    | Some (CFloat _ t) => t
+    | Some (CComplex _ t) => t
+    | _ => true
+    end
+  else if is_cls "List" val then nonempty (field_list "elts" val)
+  else if is_cls "Dict" val then nonempty (field_list "keys" val)
+  else if is_cls "Name" val && mem_pstr (name_id val) [s2p "False"; s2p "None"] then false
+  else if is_NameConstant val then
+    match const_of val with
+    | Some (CBool b) => b
+    | _ => false                      (* None *)
+    end
+  else true.
+
+Definition is_shell_kw (k : node) : bool := okey_eqb (kw_arg k) (Some kw_shell).
+
+(* the for loop: the last keyword named shell decides *)
+Definition has_shell_loop (kws : list node) : bool :=
+  fold_left (fun r k => if is_shell_kw k then shell_value_truth (field "value" k) else r) kws false.
+
+Definition has_shell (c : ctx) : res bool :=
+  match field_opt "keywords" (c_node c) with
+  | None => Raise AttributeError
+  | Some kws =>
+      do ck <- call_keywords c;;
+      match ck with
+      | None => Raise TypeError                         (* "shell" in None *)
+      | Some d => if kw_mem kw_shell d then Ok (has_shell_loop (items kws)) else Ok false
+      end
+  end.
+
+(* _evaluate_shell_call: isinstance(context.node.args[0], ast.Str) *)
+Definition first_arg (c : ctx) : res node :=
+  match field_opt "args" (c_node c) with
+  | None => Raise AttributeError
+  | Some a => match items a with [] => Raise IndexError | x :: _ => Ok x end
+  end.
+
+Definition grade (a0 : node) : rank := if is_Str a0 then LOW else HIGH.
+
+Definition evaluate_shell_call (c : ctx) : res rank :=
+  do a0 <- first_arg c;; Ok (grade a0).
+
+(* ---------------------------------------------------------------------------------------------- *)
+(* Issues *)
+
+Definition cwe_os_command_injection : Z := 78.
+Definition cwe_improper_wildcard : Z := 155.
+
+Definition issue (sev conf : rank) (cwe : Z) (text : pstr) (ln : option Z) : rissue :=
+  RIssue sev conf cwe text ln None None None.
+
+Definition shell_line (c : ctx) : option Z := get_lineno_for_call_arg c kw_shell.
+
+Definition b602_issue (sev : rank) (c : ctx) : rissue :=
+  match sev with
+  | LOW => issue LOW HIGH cwe_os_command_injection
+             (s2p "subprocess call with shell=True seems safe, but may be changed in the future, consider rewriting without shell")
+             (shell_line c)
+  | _ => issue HIGH HIGH cwe_os_command_injection
+             (s2p "subprocess call with shell=True identified, security issue.")
+             (shell_line c)
+  end.
+
+Definition b603_issue (c : ctx) : rissue :=
+  issue LOW HIGH cwe_os_command_injection
+        (s2p "subprocess call - check for execution of untrusted input.") (shell_line c).
+
+Definition b604_issue (c : ctx) : rissue :=
+  issue MEDIUM LOW cwe_os_command_injection
+        (s2p "Function call with shell=True parameter identified, possible security issue.") (shell_line c).
+
+Definition b605_issue (sev : rank) : rissue :=
+  match sev with
+  | LOW => issue LOW HIGH cwe_os_command_injection
+             (s2p "Starting a process with a shell: Seems safe, but may be changed in the future, consider rewriting without shell")
+             None
+  | _ => issue HIGH HIGH cwe_os_command_injection
+             (s2p "Starting a process with a shell, possible injection detected, security issue.")
+             None
+  end.
+
+Definition b606_issue : rissue :=
+  issue LOW MEDIUM cwe_os_command_injection (s2p "Starting a process without a shell.") None.
+
+Definition b607_issue : rissue :=
+  issue LOW HIGH cwe_os_command_injection (s2p "Starting a process with a partial executable path") None.
+
+Definition qual_text (c : ctx) : pstr :=
+  match c_qualname c with Some q => q | None => s2p "None" end.
+
+Definition b609_issue (c : ctx) : rissue :=
+  issue HIGH MEDIUM cwe_improper_wildcard
+        (s2p "Possible wildcard injection in call: " ++ qual_text c) (shell_line c).
+
+(* ---------------------------------------------------------------------------------------------- *)
+(* B602 subprocess_popen_with_shell_equals_true *)
+Definition b602 (cfg : jv) (c : ctx) : res (option rissue) :=
+  if cfg_truthy cfg then
+    do m <- in_section sec_subprocess cfg c;;
+    if m then
+      do hs <- has_shell c;;
+      if hs then
+        do args <- call_args c;;
+        if nonempty args then
+          do sev <- evaluate_shell_call c;;
+          Ok (Some (b602_issue sev c))
+        else Ok None
+      else Ok None
+    else Ok None
+  else Ok None.
+
+(* B603 subprocess_without_shell_equals_true *)
+Definition b603 (cfg : jv) (c : ctx) : res (option rissue) :=
+  if cfg_truthy cfg then
+    do m <- in_section sec_subprocess cfg c;;
+    if m then
+      do hs <- has_shell c;;
+      if hs then Ok None else Ok (Some (b603_issue c))
+    else Ok None
+  else Ok None.
+
+(* B604 any_other_function_with_shell_equals_true *)
+Definition b604 (cfg : jv) (c : ctx) : res (option rissue) :=
+  if cfg_truthy cfg then
+    do m <- in_section sec_subprocess cfg c;;
+    if m then Ok None
+    else
+      do hs <- has_shell c;;
+      if hs then Ok (Some (b604_issue c)) else Ok None
+  else Ok None.
+
+(* B605 start_process_with_a_shell *)
+Definition b605 (cfg : jv) (c : ctx) : res (option rissue) :=
+  if cfg_truthy cfg then
+    do m <- in_section sec_shell cfg c;;
+    if m then
+      do args <- call_args c;;
+      if nonempty args then
+        do sev <- evaluate_shell_call c;;
+        Ok (Some (b605_issue sev))
+      else Ok None
+    else Ok None
+  else Ok None.
+
+(* B606 start_process_with_no_shell *)
+Definition b606 (cfg : jv) (c : ctx) : res (option rissue) :=
+  if cfg_truthy cfg then
+    do m <- in_section sec_no_shell cfg c;;
+    if m then Ok (Some b606_issue) else Ok None
+  else Ok None.
+
+(* B607 start_process_with_partial_path *)
+
+(* a or b or c over the three sections, short-circuiting (a later section is not even indexed) *)
+Definition in_any_section (cfg : jv) (c : ctx) : res bool :=
+  do a <- in_section sec_subprocess cfg c;;
+  if a then Ok true else
+  do b <- in_section sec_shell cfg c;;
+  if b then Ok true else
+  in_section sec_no_shell cfg c.
+
+(* "some calls take an arg list, check the first part" *)
+Definition path_node (a0 : node) : node :=
+  if is_cls "List" a0 then
+    match field_list "elts" a0 with
+    | e :: _ => e
+    | [] => a0
+    end
+  else a0.
+
+Definition is_partial_path (n : node) : bool :=
+  match str_of n with
+  | Some s => negb (re_match re_full_path s)
+  | None => false
+  end.
+
+Definition b607 (cfg : jv) (c : ctx) : res (option rissue) :=
+  if cfg_truthy cfg then
+    do args <- call_args c;;
+    if nonempty args then
+      do m <- in_any_section cfg c;;
+      if m then
+        do a0 <- first_arg c;;
+        if is_partial_path (path_node a0) then Ok (Some b607_issue) else Ok None
+      else Ok None
+    else Ok None
+  else Ok None.
+
+(* ---------------------------------------------------------------------------------------------- *)
+(* B609 linux_commands_wildcard_injection *)
+
+Definition hex_digit (n : N) : N := if (n <? 10)%N then (48 + n)%N else (87 + n)%N.
+
+(* repr(bytes) *)
+Definition bytes_repr (b : list N) : pstr :=
+  let has_sq := existsb (N.eqb 39) b in
+  let has_dq := existsb (N.eqb 34) b in
+  let q : N := if has_sq && negb has_dq then 34%N else 39%N in
+  let esc (x : N) : pstr :=
+    if N.eqb x q || N.eqb x 92 then [92%N; x]
+    else if N.eqb x 9 then s2p "\t"
+    else if N.eqb x 10 then s2p "\n"
+    else if N.eqb x 13 then s2p "\r"
+    else if (x <? 32)%N || (127 <=? x)%N then [92%N; 120%N; hex_digit (x / 16)%N; hex_digit (x mod 16)%N]
+    else [x] in
+  [98%N; q] ++ flat_map esc b ++ [q].
+
+Definition unrendered_marker : pstr := s2p "<?>".
+
+(* format(li, "") for the element kinds _get_literal_value produces *)
+Definition fmt_elem (v : pyval) : pstr :=
+  match v with
+  | PStr s => s
+  | PInt z => str_of_Z z
+  | PNone => s2p "None"
+  | PFloat r _ => r
+  | PComplex r _ => r
+  | PBytes b => bytes_repr b
+  | _ => unrendered_marker            (* nested list/tuple/set/dict: repr not modelled *)
+  end.
+
+Definition argument_string (v : pyval) : pstr :=
+  match v with
+  | PList l => flat_map (fun li => 32%N :: fmt_elem li) l
+  | PStr s => s
+  | _ => []
+  end.
+
+Definition vulnerable_funcs : list pstr := [s2p "chown"; s2p "chmod"; s2p "tar"; s2p "rsync"].
+
+Definition wildcard_hit (s : pstr) : bool :=
+  nonempty s && existsb (fun f => contains s f && contains s (s2p "*")) vulnerable_funcs.
+
+(* context.check_call_arg_value("shell", "True") as a truth value *)
+Definition shell_is_True (c : ctx) : res bool :=
+  do r <- check_call_arg_value c kw_shell [PStr (s2p "True")];;
+  Ok (match r with Some true => true | _ => false end).
+
+(* name in config["shell"] or (name in config["subprocess"] and check_call_arg_value(...)) *)
+Definition b609_applies (cfg : jv) (c : ctx) : res bool :=
+  do a <- in_section sec_shell cfg c;;
+  if a then Ok true else
+  do b <- in_section sec_subprocess cfg c;;
+  if b then shell_is_True c else Ok false.
+
+(* "shell" in config and "subprocess" in config *)
+Definition b609_cfg_ok (cfg : jv) : res bool :=
+  do a <- py_in (Some sec_shell) cfg;;
+  if a then py_in (Some sec_subprocess) cfg else Ok false.
+
+Definition b609 (cfg : jv) (c : ctx) : res (option rissue) :=
+  do ok <- b609_cfg_ok cfg;;
+  if negb ok then Ok None else
+  do ap <- b609_applies cfg c;;
+  if ap then
+    match call_args_count c with
+    | None => Raise TypeError                      (* None >= 1 *)
+    | Some n =>
+        if Nat.leb 1 n then
+          do a <- get_call_arg_at_position c 0;;
+          if wildcard_hit (argument_string a) then Ok (Some (b609_issue c)) else Ok None
+        else Ok None
+    end
+  else Ok None.
+
+(* Work-around for Engine/Scan.v [effective_cfg]: BanditTestSet._load_tests falls back to gen_config
+   whenever config.get_option(...) *is None*, i.e. also when the YAML says `shell_injection: null`
+   (or `~`); [effective_cfg] hands that JNull to the plugin.  The real plugin functions never see
+   None, so the wiring below substitutes the generated default; b602..b609 themselves are untouched. *)
+Definition shell_default_cfg : jv :=
+  match assoc (s2p "shell_injection") defaults with Some v => v | None => JNull end.
+Definition null_to_default (f : jv -> ctx -> res (option rissue)) (cfg : jv) : ctx -> res (option rissue) :=
+  f (match cfg with JNull => shell_default_cfg | _ => cfg end).
+
+Definition shell_plugins : list plugin := [
+  Plugin (s2p "subprocess_popen_with_shell_equals_true") (null_to_default b602);
+  Plugin (s2p "subprocess_without_shell_equals_true") (null_to_default b603);
+  Plugin (s2p "any_other_function_with_shell_equals_true") (null_to_default b604);
+  Plugin (s2p "start_process_with_a_shell") (null_to_default b605);
+  Plugin (s2p "start_process_with_no_shell") (null_to_default b606);
+  Plugin (s2p "start_process_with_partial_path") (null_to_default b607);
+  Plugin (s2p "linux_commands_wildcard_injection") (null_to_default b609)
+].
